@@ -41,6 +41,7 @@ type Op struct {
 type Case struct {
 	Backend   string // vk | memory | session
 	Extractor string // header | form | query | param | cookie
+	Lookup    string `json:",omitempty"` // "" = explicit Extractor only | key = no Extractor, the source is named by KeyLookup | stale = explicit Extractor plus a KeyLookup that names another source (documented: the Extractor is used in its place)
 	SingleUse bool
 	Idle      int   // seconds (storage backends)
 	FailGet   []int // injected storage faults (vk backend)
@@ -139,6 +140,16 @@ func check(c Case) vk.Verdict {
 		route = "/t/:tok?"
 	case "cookie":
 		cfg.Extractor = csrf.FromCookie("csrf_")
+	}
+	switch c.Lookup {
+	case "key":
+		cfg.Extractor = nil
+		cfg.KeyLookup = map[string]string{"header": "header:X-Csrf-Token", "query": "query:_csrf", "form": "form:_csrf", "param": "param:tok", "cookie": "cookie:csrf_"}[c.Extractor]
+	case "stale":
+		cfg.KeyLookup = "cookie:csrf_"
+		if c.Extractor == "cookie" {
+			cfg.KeyLookup = "header:X-Other"
+		}
 	}
 	app := fiber.New()
 	if sessMW != nil && !c.SessNoMW {
@@ -451,6 +462,7 @@ var referers = []string{"", "", "SCHEME://site.test/page", "https://trusted.test
 func genCase(t *rapid.T) Case {
 	c := Case{Backend: rapid.SampledFrom([]string{"vk", "vk", "vk-retain", "memory", "session", "session"}).Draw(t, "backend"),
 		Extractor: rapid.SampledFrom([]string{"header", "form", "query", "param", "cookie"}).Draw(t, "extractor"),
+		Lookup:    rapid.SampledFrom([]string{"", "", "key", "stale"}).Draw(t, "lookup"),
 		SingleUse: rapid.Bool().Draw(t, "single"), Idle: rapid.SampledFrom([]int{5, 30, 3600}).Draw(t, "idle")}
 	if c.Backend == "session" {
 		c.SessNoMW = rapid.Bool().Draw(t, "sessnomw")
